@@ -180,6 +180,9 @@ class CallMixin:
                 pos = it
             self.require_safe(ok, lambda: self.make_exception(IndexError, ['index out of range'], {}),
                               'IndexError')
+            src = self.ghost.get('@list_of_set', {}).get(base.t.key())
+            if src is not None and not self.qctx:
+                self.assume(smt.SetMember(smt.SeqNth(base.t, pos), src))
             return self.value_of_sort(smt.SeqNth(base.t, pos), base.ety)
         if isinstance(base, SMapV):
             kt = self.term_of(idx)
@@ -601,7 +604,11 @@ class CallMixin:
                     val = c.result(self, loc)
                 out = Outcome(value=val)
             else:
-                out = Outcome(exc=self.make_exception(oc, [], {}))
+                eo = self.make_exception(oc, [], {})
+                for fname, fty in c.exc_fields.get(oc, {}).items():
+                    self.heap[eo.oid][fname] = self.fresh('%s.%s@%d' % (oc.__name__, fname, site), fty,
+                                                          is_input=False)
+                out = Outcome(exc=eo)
             ns = dict(loc)
             ns['out'] = out
             for name, ens in c.ensures:
